@@ -13,7 +13,7 @@ from ..model_cloud import ModelCloud, creds_for
 
 ID = "C19"
 LEVEL = "exploration"
-SHARDS = {"quick": 4, "thorough": 16}
+SHARDS = {"quick": 8, "thorough": 16}
 RULE = ("token leg: account/password of printable ASCII (incl. + & = % space) or a built-in region, a 48-bit device id, a token "
         "list in which the matching entry is absent / first / middle / last among near-miss ids (prefix, suffix, case-flipped, one "
         "digit off), response field order shuffled, and a fault script per endpoint from {ok, timeout, HTTP 500/404, connect "
@@ -250,7 +250,7 @@ def run(ctx) -> None:
         "faults": st.one_of(st.just({}), faults),
     }, optional={"account": text, "password": text, "region": st.sampled_from(["US", "DE", "KR"])}).map(
         lambda c: c if ("account" in c) == ("password" in c) else {k: v for k, v in c.items() if k not in ("account", "password")})
-    ctx.hyp("token", token_cases, lambda c: _run_one(ctx, c), ctx.n(1000, 128000))
+    ctx.hyp("token", token_cases, lambda c: _run_one(ctx, c), ctx.n(3200, 160000))
     disc_cases = st.fixed_dictionaries({"leg": st.just("discovery"), "id": gens.device_ids(48).filter(lambda i: i.to_bytes(6, "little") != i.to_bytes(6, "big")),
                                         "endian": st.sampled_from(["little", "big"]), "port": st.sampled_from([6444, 6444, 7000])},
                                        optional={"outage": st.fixed_dictionaries({}, optional={
@@ -259,4 +259,4 @@ def run(ctx) -> None:
                                            "/v1/iot/secure/getToken": st.lists(st.sampled_from(["timeout", "timeout", "http404", "api:3106"]), min_size=1, max_size=3)}),
                                                  "account": text, "password": text, "region": st.sampled_from(["US", "DE", "KR"])}).map(
         lambda c: c if ("account" in c) == ("password" in c) else {k: v for k, v in c.items() if k not in ("account", "password")})
-    ctx.hyp("discovery", disc_cases, lambda c: _run_one(ctx, c), ctx.n(150, 9600))
+    ctx.hyp("discovery", disc_cases, lambda c: _run_one(ctx, c), ctx.n(600, 32000))
